@@ -13,6 +13,7 @@ import vlib
 from vlib import Inconclusive
 
 MODULE = "c10prog"
+POOL = int(os.environ.get("VERIF_POOL", "4"))     # worker processes of this check (the machine is shared)
 
 
 # ------------------------------------------------------------------------------------------------ rendering
@@ -199,8 +200,8 @@ def observe(binpath, d, cases, timeout):
     out = os.path.join(d, "flows.ndjson")
     cfgs = ",".join(os.path.join(d, n + ".yaml") for n in CONFIGS)
     # -share: one load, both configurations; -noexport: no compilation of export data (type-checked from source anyway)
-    p = vlib.sh([binpath, "-share", "-noexport", "-dir", d, "-configs", cfgs, "-out", out], env=vlib.goenv(),
-                check=False, timeout=timeout)
+    p = vlib.sh([binpath, "-share", "-noexport", "-dir", d, "-configs", cfgs, "-out", out],
+                env=dict(vlib.goenv(), GOMAXPROCS="2"), check=False, timeout=timeout)
     if p.returncode != 0 or not os.path.exists(out):
         raise Inconclusive("contractrun failed in %s:\n%s" % (d, p.stdout[-3000:]))
     res = {}
@@ -300,7 +301,7 @@ def generate(ctx):
     only = os.environ.get("VERIF_C10_SPACES")      # development aid: restrict to some sub-spaces
     if only:
         sps = [sp for sp in sps if sp[0] in only.split(",")]
-    for name, recs, r in vlib.pmap(one, sps, nproc=4):
+    for name, recs, r in vlib.pmap(one, sps, nproc=POOL):
         new = 0
         for c in sorted(recs, key=lambda x: json.dumps(x, sort_keys=True)):
             key = json.dumps(c, sort_keys=True)
@@ -352,7 +353,7 @@ def run(ctx):
     def analyse(ci):
         return observe(bins["contractrun"], os.path.join(ctx.work, "prog%05d" % ci), chunks[ci], 1800)
 
-    results = vlib.pmap(analyse, range(len(chunks)), nproc=max(4, vlib.NCPU - 4))
+    results = vlib.pmap(analyse, range(len(chunks)), nproc=POOL)
     recs, nstray, t_load, t_taint = [], 0, 0.0, 0.0
     where = {}
     for ci, res in enumerate(results):
@@ -379,7 +380,7 @@ def run(ctx):
         nums = [int(x) for x in m[-1].replace("<<", "").replace(">>", "").split(",")[1:]]
         return vlib.read_ndjson(fp), nums
 
-    out = vlib.pmap(tlc_batch, range(NB), nproc=8)
+    out = vlib.pmap(tlc_batch, range(NB), nproc=POOL)
     fails = [f for fl, _ in out for f in fl]
     tot = [sum(nums[k] for _, nums in out) for k in range(6)]
     n_records, n_asserted, n_nonempty, n_bodyvisible, n_unasserted, n_fail = tot
